@@ -94,16 +94,58 @@ func (a *clusterACLs) allowed(principal, host, resourceName string, resourceType
 	return hasAllow
 }
 
+// anyAllowed reports whether the principal may perform op on at least one
+// resource of the given type, mirroring Kafka's authorizeByResourceType: a
+// matching DENY on the literal wildcard denies outright, and a matching ALLOW
+// pattern only counts if no matching DENY pattern dominates it (a DENY on the
+// same literal, or a DENY prefix that is a prefix of the ALLOW pattern's name).
 func (a *clusterACLs) anyAllowed(principal, host string, resourceType kmsg.ACLResourceType, op kmsg.ACLOperation) bool {
+	matches := func(acl *acl) bool {
+		return acl.resourceType == resourceType &&
+			acl.matchesPrincipal(principal) &&
+			acl.matchesHost(host) &&
+			acl.matchesOp(op)
+	}
+	var denies []*acl
 	for i := range a.acls {
 		acl := &a.acls[i]
-		if acl.resourceType != resourceType ||
-			!acl.matchesPrincipal(principal) ||
-			!acl.matchesHost(host) ||
-			!acl.matchesOp(op) {
+		if acl.permission != kmsg.ACLPermissionTypeDeny || !matches(acl) {
 			continue
 		}
-		if acl.permission == kmsg.ACLPermissionTypeAllow {
+		switch acl.pattern {
+		case kmsg.ACLResourcePatternTypeLiteral:
+			if acl.resourceName == "*" {
+				return false
+			}
+			denies = append(denies, acl)
+		case kmsg.ACLResourcePatternTypePrefixed:
+			denies = append(denies, acl)
+		default: // other pattern types never match a resource
+		}
+	}
+	for i := range a.acls {
+		acl := &a.acls[i]
+		if acl.permission != kmsg.ACLPermissionTypeAllow || !matches(acl) {
+			continue
+		}
+		if acl.pattern != kmsg.ACLResourcePatternTypeLiteral && acl.pattern != kmsg.ACLResourcePatternTypePrefixed {
+			continue
+		}
+		if acl.pattern == kmsg.ACLResourcePatternTypeLiteral && acl.resourceName == "*" {
+			return true // a wildcard ALLOW is only overridden by a wildcard DENY
+		}
+		dominated := false
+		for _, d := range denies {
+			if d.pattern == kmsg.ACLResourcePatternTypeLiteral {
+				dominated = acl.pattern == kmsg.ACLResourcePatternTypeLiteral && d.resourceName == acl.resourceName
+			} else {
+				dominated = strings.HasPrefix(acl.resourceName, d.resourceName)
+			}
+			if dominated {
+				break
+			}
+		}
+		if !dominated {
 			return true
 		}
 	}
